@@ -1,4 +1,5 @@
 import J5V.Rules.ProofsC04
+import J5V.Rules.Root
 /-!
 # C04 — schema read back from compiled proto equals the j5s source schema
 
@@ -31,54 +32,77 @@ theorem C04_reader_total (p : Property) (h : WFField p = true) :
   | err t => rw [hw] at hr; cases hr
   | panic w => rw [hw] at hr; cases hr
 
-/-! ## objects / oneofs: names, order and proto paths -/
+/-! ## objects / oneofs as a whole: names, order, proto paths, descriptions, entity and any-membership
 
-/-- an object or oneof declaration: the reader walks the fields in descriptor order -/
-structure RootDecl where
-  name : String
-  description : String
-  properties : List Property
-  deriving DecidableEq, Repr
+`RootDecl`, `writeRoot`, `readRoot`, `WFRoot` live in `J5V/Rules/Root.lean` (the driver runs them). -/
 
-def roundtripAll : List Property → Outcome (List Property)
-  | [] => .ok []
-  | p :: rest =>
-    match roundtrip p with
-    | .ok q =>
-      (match roundtripAll rest with
-       | .ok qs => .ok (q :: qs)
-       | .err t => .err t
-       | .panic w => .panic w)
-    | .err t => .err t
-    | .panic w => .panic w
+theorem C04_properties_roundtrip (ps : List Property) (h : ps.all WFField = true) :
+    ∃ as, writeAll ps = .ok as ∧ readAll as = .ok (ps.map normField) := by
+  induction ps with
+  | nil => exact ⟨[], rfl, rfl⟩
+  | cons p rest ih =>
+    simp only [List.all_cons, Bool.and_eq_true] at h
+    obtain ⟨as, hw, hr⟩ := ih h.2
+    obtain ⟨a, q, hwa, hra⟩ := C04_reader_total p h.1
+    have hq : q = normField p := by
+      have := C04_field_roundtrip p h.1
+      simp only [roundtrip, hwa, hra, Outcome.ok.injEq] at this
+      exact this
+    subst hq
+    exact ⟨a :: as, by simp only [writeAll, hwa, hw], by simp only [readAll, hra, hr, List.map_cons]⟩
 
-/-- `messageProperties` over all fields; name and description of the message pass through
-(`schemaRootFromProto`) -/
-def rootRoundtrip (r : RootDecl) : Outcome RootDecl :=
-  match roundtripAll r.properties with
-  | .ok qs => .ok { r with properties := qs }
-  | .err t => .err t
-  | .panic w => .panic w
+/-- **C04, root level.** For every object or oneof declaration whose properties are covered:
+the reflected root has the same kind, name and description, the same entity annotation and
+any-membership, and the same properties in the same order with the same proto field numbers, each
+in normal form. `env` gives the `(j5.ext.v1.psm)` annotation of referenced object types. -/
+theorem C04_root_roundtrip (env : RefPsm) (r : RootDecl) (h : WFRoot env r = true) :
+    rootRoundtrip env r = .ok { r with properties := r.properties.map normField } := by
+  obtain ⟨kind, name, desc, ent, anym, props⟩ := r
+  simp only [WFRoot, Bool.and_eq_true] at h
+  obtain ⟨hp, hk⟩ := h
+  obtain ⟨as, hw, hr⟩ := C04_properties_roundtrip props hp
+  cases kind with
+  | oneof =>
+    simp only [Bool.and_eq_true, Option.isNone_iff_eq_none, List.isEmpty_iff] at hk
+    obtain ⟨he, ha⟩ := hk
+    subst he; subst ha
+    simp [rootRoundtrip, writeRoot, hw, readRoot, hr]
+  | object =>
+    cases ent with
+    | some e =>
+      simp [rootRoundtrip, writeRoot, hw, readRoot, hr, findPsm]
+    | none =>
+      have hk' : keysLookup env props = none := by simpa using hk
+      simp [rootRoundtrip, writeRoot, hw, readRoot, hr, findPsm, hk']
 
-/-- **C04, root level.** Same property names, same order, same proto field numbers, and every
-property in normal form. -/
-theorem C04_root_roundtrip (r : RootDecl) (h : r.properties.all WFField = true) :
-    rootRoundtrip r = .ok { r with properties := r.properties.map normField } := by
-  obtain ⟨name, desc, props⟩ := r
-  have : roundtripAll props = .ok (props.map normField) := by
-    induction props with
-    | nil => rfl
-    | cons p rest ih =>
-      simp only [List.all_cons, Bool.and_eq_true] at h
-      simp only [roundtripAll, field_roundtrip p h.1, ih h.2, List.map_cons]
-  simp only [rootRoundtrip, this]
-
-theorem C04_names_order_paths (r : RootDecl) (h : r.properties.all WFField = true) :
-    ∃ q, rootRoundtrip r = .ok q ∧ q.name = r.name ∧ q.description = r.description ∧
+theorem C04_names_order_paths (env : RefPsm) (r : RootDecl) (h : WFRoot env r = true) :
+    ∃ q, rootRoundtrip env r = .ok q ∧ q.kind = r.kind ∧ q.name = r.name ∧ q.description = r.description ∧
+      q.entity = r.entity ∧ q.anyMember = r.anyMember ∧
       q.properties.map (fun p => (p.name, p.number, p.description)) =
         r.properties.map (fun p => (p.name, p.number, p.description)) := by
-  refine ⟨_, C04_root_roundtrip r h, rfl, rfl, ?_⟩
+  refine ⟨_, C04_root_roundtrip env r h, rfl, rfl, rfl, rfl, rfl, ?_⟩
   simp [List.map_map, Function.comp_def, normField]
+
+/-- Open finding `schema-diff:root:entity:invented[keys-field]`: the reader's legacy lookup. An
+object WITHOUT entity annotation that has a field `keys` of an entity-annotated object type is
+reflected as if it were part of that entity. -/
+theorem C04_root_entity_invented_counterexample :
+    let env : RefPsm := fun ref => if ref = "foo.v1.Bar" then some { entityName := "Widget", entityPart := some 1 } else none
+    let r : RootDecl := { name := "Foo", properties := [{ name := "keys", number := 2, schema := .single (.object "foo.v1.Bar" false false) }] }
+    rootRoundtrip env r = .ok { r with entity := some { entity := "Widget", part := 1 } } := by
+  decide
+
+/-- non-vacuity: an entity object with any-membership, and a oneof -/
+example :
+    let env : RefPsm := fun _ => none
+    WFRoot env { name := "Foo", description := "the foo", entity := some { entity := "Thing", part := 1 },
+                 anyMember := ["alpha"],
+                 properties := [{ name := "a", number := 2, required := true, schema := .single (.string none none none) },
+                                { name := "m", number := 3, schema := .map (.bool none none) (some { minPairs := some 1 }) none }] } = true ∧
+    WFRoot env { kind := .oneof, name := "Foo",
+                 properties := [{ name := "a", number := 1, schema := .single (.object "foo.v1.Bar" false false) },
+                                { name := "b", number := 2, schema := .single (.integer .i32 (some { minimum := some 3 }) none) }] } = true := by
+  decide
 
 /-! ## the normal form means the same -/
 
@@ -168,12 +192,6 @@ theorem C04_map_value_annotations_counterexample :
     roundtrip { name := "m", number := 2,
                 schema := .map (.bool none (some { text := "f1/df/s0/ds0/q0/qi-" })) none none }
       = .ok { name := "m", number := 2, schema := .map (.bool none none) none none } := by
-  constructor <;> decide
-
-/-- `reader-error:array:any` / `reader-error:map:any` (since a9e5f7d the reader rejects them) -/
-theorem C04_container_of_any_counterexample :
-    (roundtrip { name := "a", number := 2, schema := .array (.any false [] none) none none }).isErr = true ∧
-    (roundtrip { name := "a", number := 2, schema := .map (.any false [] none) none none }).isErr = true := by
   constructor <;> decide
 
 /-! ## non-vacuity -/
